@@ -34,7 +34,20 @@ MOUNTS = {
     "v5/codec/mod.rs": [("verif_v5", "h_v5.rs")],
     "v5/codec/codec.rs": [("verif_v5_frame", "h_v5_frame.rs")],
     "v5/codec/packet/mod.rs": [("verif_v5_packet", "h_v5_packet.rs")],
+    "v5/shared.rs": [("verif_v5_shared", "h_v5_shared.rs")],
+    "v3/shared.rs": [("verif_v3_shared", "h_v3_shared.rs")],
 }
+
+# connection-state slice: the std `VecDeque` import of these files is renamed and the fixed-capacity
+# model (kani/harness/support/mdeque.rs) is imported under the original name. This is the ONE
+# place where weave is not add-only: an explicit `use std::collections::VecDeque` cannot be
+# shadowed by an appended line (E0252). Kani flavour only; each anchor must match exactly once; the
+# substitutions are recorded in the evidence.
+SUBST = {
+    "v5/shared.rs": [("collections::VecDeque,", "collections::VecDeque as StdVecDequeUnused,")],
+    "v3/shared.rs": [("collections::VecDeque,", "collections::VecDeque as StdVecDequeUnused,")],
+}
+DEQUE_LINES = "\n#[cfg(kani)]\n#[allow(unused_imports)]\nuse crate::mdeque::VecDeque;\n"
 
 # files in which the prelude `Vec` is shadowed by the fixed-capacity model (kani/harness/support/
 # mvec.rs) UNDER KANI ONLY, by an appended `use` line (add-only).  See DESIGN.md section 2/3.
@@ -46,6 +59,7 @@ SHADOW_VEC = [
     "v5/codec/packet/connect.rs", "v5/codec/packet/disconnect.rs",
     "v5/codec/packet/pubacks.rs", "v5/codec/packet/publish.rs",
     "v5/codec/packet/subscribe.rs",
+    "v3/shared.rs",
 ]
 
 # topic.rs: capacity-8 instance, plus the `vec!` macro (one non-test use, `vec![]`) by a
@@ -65,6 +79,7 @@ SLICE_FILES = [
     "v5/codec/packet/connect.rs", "v5/codec/packet/disconnect.rs",
     "v5/codec/packet/pubacks.rs", "v5/codec/packet/publish.rs",
     "v5/codec/packet/subscribe.rs",
+    "payload.rs", "v5/shared.rs", "v3/shared.rs",
 ]
 
 
@@ -138,6 +153,22 @@ def weave_kani():
         with open(p, "a") as f:
             f.write(VEC8_LINES)
         appended[rel] = appended.get(rel, "") + VEC8_LINES
+    substituted = {}
+    for rel, subs in SUBST.items():
+        p = os.path.join(stage, "src", rel)
+        if not os.path.exists(p):
+            raise SystemExit(f"weave: {rel} no longer exists")
+        with open(p) as f:
+            txt = f.read()
+        for old, new in subs:
+            if txt.count(old) != 1:
+                raise SystemExit(f"weave: substitution anchor `{old}` matches {txt.count(old)} times in {rel}")
+            txt = txt.replace(old, new)
+        txt += DEQUE_LINES
+        with open(p, "w") as f:
+            f.write(txt)
+        substituted[rel] = [list(x) for x in subs]
+        appended[rel] = appended.get(rel, "") + DEQUE_LINES
     # the one crate-level constant the v5 codec refers to outside the slice
     with open(os.path.join(REPO, "src", "v5", "mod.rs")) as f:
         m = re.search(r"^const RECEIVE_MAX_DEFAULT:[^;]*;", f.read(), re.M)
@@ -195,6 +226,7 @@ def weave_kani():
         "sources_sha256": {rel: sha(os.path.join(REPO, "src", rel)) for rel in SLICE_FILES
                            if os.path.exists(os.path.join(REPO, "src", rel))},
         "appended_lines": appended,
+        "substitutions": substituted,
     }
     return meta
 
@@ -218,8 +250,10 @@ def weave_replay():
     # lint levels do not change behaviour; harness code is not written to clippy::pedantic
     txt = txt.replace("#![deny(", "#![allow(unexpected_cfgs, dead_code, unused_imports, unused_macros, unused_variables)]\n#![allow(", 1)
     vh = os.path.join(HARN, "support", "vh.rs")
+    vio = os.path.join(HARN, "support", "vio_replay.rs")
     inject = (f'#[cfg(verif_replay)]\n#[macro_use]\n#[path = "{vk}"]\npub(crate) mod vk;\n'
-              f'#[cfg(verif_replay)]\n#[path = "{vh}"]\npub(crate) mod vh;\n')
+              f'#[cfg(verif_replay)]\n#[path = "{vh}"]\npub(crate) mod vh;\n'
+              f'#[cfg(all(verif_replay, test))]\n#[path = "{vio}"]\npub(crate) mod vio;\n')
     if "mod topic;" not in txt:
         raise SystemExit("weave_replay: anchor `mod topic;` not found in lib.rs")
     txt = txt.replace("mod topic;", inject + "mod topic;", 1)
